@@ -52,13 +52,37 @@ Inductive outcome :=
 
 Record stats := { n_insn : N; n_back : N; peak : nat }.
 
+(* The interpreter is written once, over an interface to the backtracking state; it is
+   instantiated with the copy-on-write State of State.v (the code as written, [iface0]) and, in
+   the proofs, with the whole-state-copy reference machine. *)
+Record iface (S : Type) := {
+  i_push : S -> nat -> nat -> option S;          (* None = StackOverflow *)
+  i_pop : S -> option (S * nat * nat);           (* None = panic *)
+  i_save : S -> nat -> val -> option S;          (* None = panic *)
+  i_get : S -> nat -> option val;
+  i_spush : S -> val -> option S;
+  i_spop : S -> option (S * val);
+  i_count : S -> nat;
+  i_cut : S -> nat -> option S;
+  i_result : S -> list val
+}.
+Arguments i_push {S}. Arguments i_pop {S}. Arguments i_save {S}. Arguments i_get {S}.
+Arguments i_spush {S}. Arguments i_spop {S}. Arguments i_count {S}. Arguments i_cut {S}.
+Arguments i_result {S}.
+
+Definition iface0 : iface state :=
+  {| i_push := st_push; i_pop := st_pop; i_save := st_save; i_get := st_get;
+     i_spush := st_stack_push; i_spop := st_stack_pop; i_count := st_count; i_cut := st_cut;
+     i_result := saves |}.
+
 (* result of one instruction *)
-Inductive ires :=
-| INext (pc ix : nat) (s : state)
-| IFailed (s : state)                 (* break 'fail *)
+Inductive gires (S : Type) :=
+| INext (pc ix : nat) (s : S)
+| IFailed (s : S)                 (* break 'fail *)
 | IDone (saves : list val)
 | IStackOverflow
 | IPanicked.
+Arguments INext {S}. Arguments IFailed {S}. Arguments IDone {S}. Arguments IStackOverflow {S}. Arguments IPanicked {S}.
 
 Section Run.
 Variable cx : ctx.                    (* text, pos, skipped-empty-match flag *)
@@ -78,17 +102,6 @@ Fixpoint goback (fuel : nat) (cnt : N) (ix : nat) : gb :=
       end
   end.
 
-(* FailNegativeLookAround: pop until the popped pc is pc + 1 *)
-Fixpoint fnla (fuel : nat) (s : state) (target : nat) : option state :=
-  match fuel with
-  | 0 => None
-  | S f =>
-      match st_pop s with
-      | None => None
-      | Some (s', ppc, _) => if ppc =? target then Some s' else fnla f s' target
-      end
-  end.
-
 (* the regex-automata oracle for a delegated block: anchored at ix, leftmost-first, returning
    the end offset and the capture slots of the groups [sg, eg) *)
 Definition oracle (es : list expr) (sg eg : nat) (ix : nat) : option (nat * list val) :=
@@ -97,37 +110,52 @@ Definition oracle (es : list expr) (sg eg : nat) (ix : nat) : option (nat * list
   | None => None
   end.
 
+Section Generic.
+Variable S : Type.
+Variable I : iface S.
+
+(* FailNegativeLookAround: pop until the popped pc is pc + 1 *)
+Fixpoint fnla (fuel : nat) (s : S) (target : nat) : option S :=
+  match fuel with
+  | 0 => None
+  | Datatypes.S f =>
+      match i_pop I s with
+      | None => None
+      | Some (s', ppc, _) => if ppc =? target then Some s' else fnla f s' target
+      end
+  end.
+
 (* saving the groups a delegate reports: only participating groups are written *)
-Fixpoint save_groups (s : state) (caps : list val) (sg n : nat) : option state :=
+Fixpoint save_groups (s : S) (caps : list val) (sg n : nat) : option S :=
   match n with
   | 0 => Some s
-  | S n' =>
+  | Datatypes.S n' =>
       match getcap caps (2 * sg), getcap caps (2 * sg + 1) with
       | V a, V b =>
-          match st_save s (2 * sg) (V a) with
+          match i_save I s (2 * sg) (V a) with
           | Some s1 =>
-              match st_save s1 (2 * sg + 1) (V b) with
-              | Some s2 => save_groups s2 caps (S sg) n'
+              match i_save I s1 (2 * sg + 1) (V b) with
+              | Some s2 => save_groups s2 caps (Datatypes.S sg) n'
               | None => None
               end
           | None => None
           end
-      | _, _ => save_groups s caps (S sg) n'
+      | _, _ => save_groups s caps (Datatypes.S sg) n'
       end
   end.
 
-Definition save_or_panic (s : state) (slot : nat) (v : val) (k : state -> ires) : ires :=
-  match st_save s slot v with Some s' => k s' | None => IPanicked end.
+Definition save_or_panic (s : S) (slot : nat) (v : val) (k : S -> gires S) : gires S :=
+  match i_save I s slot v with Some s' => k s' | None => IPanicked end.
 
-Definition push_or (s : state) (pc ix : nat) (k : state -> ires) : ires :=
-  match st_push s pc ix with Some s' => k s' | None => IStackOverflow end.
+Definition push_or (s : S) (pc ix : nat) (k : S -> gires S) : gires S :=
+  match i_push I s pc ix with Some s' => k s' | None => IStackOverflow end.
 
-Definition exec_insn (i : insn) (pc ix : nat) (s : state) : ires :=
+Definition gexec_insn (i : insn) (pc ix : nat) (s : S) : gires S :=
   match i with
   | IEnd =>
-      match nth_error (saves s) 1 with
+      match i_get I s 1 with
       | Some slot1 =>
-          match st_get s 0 with
+          match i_get I s 0 with
           | None => IPanicked
           | Some s0 =>
               let gt := match s0, slot1 with
@@ -135,107 +163,107 @@ Definition exec_insn (i : insn) (pc ix : nat) (s : state) : ires :=
                         | MAXV, V _ => true
                         | _, MAXV => false
                         end in
-              if gt then match st_save s 0 slot1 with
-                         | Some s' => IDone (saves s')
+              if gt then match i_save I s 0 slot1 with
+                         | Some s' => IDone (i_result I s')
                          | None => IPanicked
                          end
-              else IDone (saves s)
+              else IDone (i_result I s)
           end
-      | None => IDone (saves s)
+      | None => IDone (i_result I s)
       end
   | IAny =>
       match nth_error t ix with
-      | Some b => INext (S pc) (ix + cp_len b) s
+      | Some b => INext (Datatypes.S pc) (ix + cp_len b) s
       | None => IFailed s
       end
   | IAnyNoNL =>
       match nth_error t ix with
-      | Some b => if b =? 10 then IFailed s else INext (S pc) (ix + cp_len b) s
+      | Some b => if b =? 10 then IFailed s else INext (Datatypes.S pc) (ix + cp_len b) s
       | None => IFailed s
       end
-  | IAssertion a => if assert_holds cx a ix then INext (S pc) ix s else IFailed s
-  | ILit v => if lit_at t ix v then INext (S pc) (ix + length v) s else IFailed s
+  | IAssertion a => if assert_holds cx a ix then INext (Datatypes.S pc) ix s else IFailed s
+  | ILit v => if lit_at t ix v then INext (Datatypes.S pc) (ix + length v) s else IFailed s
   | ISplit x y => push_or s y ix (fun s' => INext x ix s')
   | IJmp target => INext target ix s
-  | ISave slot => save_or_panic s slot (V ix) (fun s' => INext (S pc) ix s')
-  | ISave0 slot => save_or_panic s slot (V 0) (fun s' => INext (S pc) ix s')
+  | ISave slot => save_or_panic s slot (V ix) (fun s' => INext (Datatypes.S pc) ix s')
+  | ISave0 slot => save_or_panic s slot (V 0) (fun s' => INext (Datatypes.S pc) ix s')
   | IRestore slot =>
-      match st_get s slot with
-      | Some (V v) => INext (S pc) v s
+      match i_get I s slot with
+      | Some (V v) => INext (Datatypes.S pc) v s
       | _ => IPanicked
       end
   | IRepeatGr lo hi next rep =>
-      match st_get s rep with
+      match i_get I s rep with
       | Some (V c) =>
           if N.eqb (N.of_nat c) hi then INext next ix s else
           save_or_panic s rep (V (c + 1)) (fun s1 =>
-            if N.leb lo (N.of_nat c) then push_or s1 next ix (fun s2 => INext (S pc) ix s2)
-            else INext (S pc) ix s1)
+            if N.leb lo (N.of_nat c) then push_or s1 next ix (fun s2 => INext (Datatypes.S pc) ix s2)
+            else INext (Datatypes.S pc) ix s1)
       | _ => IPanicked
       end
   | IRepeatNg lo hi next rep =>
-      match st_get s rep with
+      match i_get I s rep with
       | Some (V c) =>
           if N.eqb (N.of_nat c) hi then INext next ix s else
           save_or_panic s rep (V (c + 1)) (fun s1 =>
-            if N.leb lo (N.of_nat c) then push_or s1 (S pc) ix (fun s2 => INext next ix s2)
-            else INext (S pc) ix s1)
+            if N.leb lo (N.of_nat c) then push_or s1 (Datatypes.S pc) ix (fun s2 => INext next ix s2)
+            else INext (Datatypes.S pc) ix s1)
       | _ => IPanicked
       end
   | IRepeatEpsilonGr lo next rep chk =>
-      match st_get s rep, st_get s chk with
+      match i_get I s rep, i_get I s chk with
       | Some (V c), Some ck =>
           if N.ltb lo (N.of_nat c) && val_eqb ck (V ix) then IFailed s else
           save_or_panic s rep (V (c + 1)) (fun s1 =>
             if N.leb lo (N.of_nat c) then
               save_or_panic s1 chk (V ix) (fun s2 =>
-                push_or s2 next ix (fun s3 => INext (S pc) ix s3))
-            else INext (S pc) ix s1)
+                push_or s2 next ix (fun s3 => INext (Datatypes.S pc) ix s3))
+            else INext (Datatypes.S pc) ix s1)
       | _, _ => IPanicked
       end
   | IRepeatEpsilonNg lo next rep chk =>
-      match st_get s rep, st_get s chk with
+      match i_get I s rep, i_get I s chk with
       | Some (V c), Some ck =>
           if N.ltb lo (N.of_nat c) && val_eqb ck (V ix) then IFailed s else
           save_or_panic s rep (V (c + 1)) (fun s1 =>
             if N.leb lo (N.of_nat c) then
               save_or_panic s1 chk (V ix) (fun s2 =>
-                push_or s2 (S pc) ix (fun s3 => INext next ix s3))
-            else INext (S pc) ix s1)
+                push_or s2 (Datatypes.S pc) ix (fun s3 => INext next ix s3))
+            else INext (Datatypes.S pc) ix s1)
       | _, _ => IPanicked
       end
   | IFailNegativeLookAround =>
-      match fnla (S (length (stack s))) s (S pc) with
+      match fnla (Datatypes.S (i_count I s)) s (Datatypes.S pc) with
       | Some s' => IFailed s'
       | None => IPanicked
       end
   | IGoBack cnt =>
       match goback ix cnt ix with
-      | GBOk j => INext (S pc) j s
+      | GBOk j => INext (Datatypes.S pc) j s
       | GBFail => IFailed s
       | GBPanic => IPanicked
       end
   | IBackref slot =>
-      match st_get s slot, st_get s (S slot) with
+      match i_get I s slot, i_get I s (Datatypes.S slot) with
       | Some MAXV, _ => IFailed s
       | Some (V _), Some MAXV => IFailed s
       | Some (V lo), Some (V hi) =>
           if hi <? lo then IFailed s else
           if (hi <=? length t) && is_boundary t lo && is_boundary t hi then
-            if lit_at t ix (slice t lo hi) then INext (S pc) (ix + (hi - lo)) s else IFailed s
+            if lit_at t ix (slice t lo hi) then INext (Datatypes.S pc) (ix + (hi - lo)) s else IFailed s
           else IPanicked
       | _, _ => IPanicked
       end
   | IBeginAtomic =>
-      match st_stack_push s (V (st_count s)) with
-      | Some s' => INext (S pc) ix s'
+      match i_spush I s (V (i_count I s)) with
+      | Some s' => INext (Datatypes.S pc) ix s'
       | None => IPanicked
       end
   | IEndAtomic =>
-      match st_stack_pop s with
+      match i_spop I s with
       | Some (s1, V c) =>
-          match st_cut s1 c with
-          | Some s2 => INext (S pc) ix s2
+          match i_cut I s1 c with
+          | Some s2 => INext (Datatypes.S pc) ix s2
           | None => IPanicked
           end
       | _ => IPanicked
@@ -244,18 +272,18 @@ Definition exec_insn (i : insn) (pc ix : nat) (s : state) : ires :=
       match oracle es sg eg ix with
       | None => IFailed s
       | Some (ix', caps) =>
-          if sg =? eg then INext (S pc) ix' s
+          if sg =? eg then INext (Datatypes.S pc) ix' s
           else match save_groups s caps sg (eg - sg) with
-               | Some s' => INext (S pc) ix' s'
+               | Some s' => INext (Datatypes.S pc) ix' s'
                | None => IPanicked
                end
       end
   | IContinueFromPreviousMatchEnd =>
-      if negb (ix =? c_pos cx) || c_skipped cx then IFailed s else INext (S pc) ix s
+      if negb (ix =? c_pos cx) || c_skipped cx then IFailed s else INext (Datatypes.S pc) ix s
   | IBackrefExistsCondition g =>
-      match st_get s (2 * N.to_nat g) with
+      match i_get I s (2 * N.to_nat g) with
       | Some MAXV => IFailed s
-      | Some (V _) => INext (S pc) ix s
+      | Some (V _) => INext (Datatypes.S pc) ix s
       | None => IPanicked
       end
   end.
@@ -267,36 +295,39 @@ Definition bump_back (st : stats) : stats :=
 
 (* the two nested loops of vm::run; one unit of fuel per executed instruction.
    [limit = None] is an unlimited run (used by the C07 theorems). *)
-Fixpoint run_loop (p : prog) (limit : option N) (fuel : nat)
-         (pc ix : nat) (s : state) (bt : N) (st : stats) : outcome * stats :=
+Fixpoint grun_loop (p : prog) (limit : option N) (fuel : nat)
+         (pc ix : nat) (s : S) (bt : N) (st : stats) : outcome * stats :=
   match fuel with
   | 0 => (ROutOfFuel, st)
-  | S f =>
-      let st := bump st (length (stack s)) in
+  | Datatypes.S f =>
+      let st := bump st (i_count I s) in
       match nth_error (p_body p) pc with
       | None => (RPanic, st)
       | Some i =>
-          match exec_insn i pc ix s with
-          | INext pc' ix' s' => run_loop p limit f pc' ix' s' bt st
+          match gexec_insn i pc ix s with
+          | INext pc' ix' s' => grun_loop p limit f pc' ix' s' bt st
           | IDone sv => (RMatch sv, st)
           | IStackOverflow => (RErrStack, st)
           | IPanicked => (RPanic, st)
           | IFailed s' =>
-              match stack s' with
-              | [] => (RNoMatch, st)
-              | _ =>
-                  let bt' := N.succ bt in
-                  let st := bump_back st in
-                  if match limit with Some l => N.ltb l bt' | None => false end
-                  then (RErrLimit, st)
-                  else match st_pop s' with
-                       | Some (s'', pc', ix') => run_loop p limit f pc' ix' s'' bt' st
-                       | None => (RPanic, st)
-                       end
-              end
+              if i_count I s' =? 0 then (RNoMatch, st) else
+              let bt' := N.succ bt in
+              let st := bump_back st in
+              if match limit with Some l => N.ltb l bt' | None => false end
+              then (RErrLimit, st)
+              else match i_pop I s' with
+                   | Some (s'', pc', ix') => grun_loop p limit f pc' ix' s'' bt' st
+                   | None => (RPanic, st)
+                   end
           end
       end
   end.
+
+End Generic.
+
+Definition ires := gires state.
+Definition exec_insn := gexec_insn state iface0.
+Definition run_loop := grun_loop state iface0.
 
 Definition stats0 : stats := {| n_insn := 0; n_back := 0; peak := 0 |}.
 
